@@ -250,7 +250,7 @@ class ShardState:
         viol = None
         if self.last_violation is not None:
             case, v = self.last_violation
-            viol = {"case": case, "kind": v.kind, "what": v.what, "detail": v.detail}
+            viol = json.loads(json.dumps({"case": case, "kind": v.kind, "what": v.what, "detail": v.detail}, default=str))
         return {
             "evaluations": self.evaluations,
             "labels": dict(self.labels),
